@@ -298,7 +298,8 @@ def rule_reduce_axis(ctx):
                          'axis it replaces: ds.take_axis(...).axes[d].attrs is {} where ds[k].take_axis(...).axes[d].attrs keeps units etc.', node=dflt.node)
     # insertion through __setitem__ of a Dataset
     ev = run(ctx, fi, mode='join')
-    ins = [e for p in ev.paths for e in p.events if e.kind == 'store_sub' and e.loops]
+    # (stores into a local dict / list display - a look-up table built on the way - are not insertions of results)
+    ins = [e for p in ev.paths for e in p.events if e.kind == 'store_sub' and e.loops and strip(e.a)[0] not in ('dict', 'list')]
     if ins and all(strip(e.a) == ('call', ('attr', SELF, '__class__'), (), ()) for e in ins):
         ctx.holds('R4', 'reduce_axis inserts results with Dataset.__setitem__')
     else:
